@@ -393,3 +393,61 @@ Example C07_check_op4_op7_example :
   check_C07 [7; 4; 2; 0; 0; 0; 4611686018427387904; 4604930618986332160; 4607182418800017408; 13828865605794529280; 4609997168567123968; 2; 0; 1589621259045895168; 0; 2; 4595377478333683452; 4601950897308769957; 0; 4601950897308769957]%Z = verdict 0 6409 (-1) [] /\
   check_C07 [7; 7; 0; 4613937818241073152; 0; 0; 13839561654909534208; 4616189618054758400; 4579226509592286528; 4607056279927966891; 0; 4607182418800017408; 3; 0; 0; 4611686018427387904; 0; 3; 4602678819172646912; 13593486545382453988; 4602678819172646912; 0; 13593486545382453988; 13606707285761285092; 4602678819172646912; 4602678819172646904; 4381604825578692181; 4602678819172646915; 0; 13593486545382453988]%Z = verdict 0 268305 (-1) [].
 Proof. vm_compute. split; reflexivity. Qed.
+
+(* ----- (group hK) the remaining ops of the comparator: with this every op of check_C07 has a soundness reading -----
+   op 3 (old dispatch lines): every level returned with the bits of the method, every Rand pair bit-identical;
+   op 9 (own Rand method): header status 0, own bit 1 set, two equally seeded sources give the same bits, no panic;
+   op 5: the Kolmogorov-Smirnov distance D computed BY THE HARNESS (trusted) is >= 0 and within the DKW bound;
+   op 8: the draws reported by the harness (trusted: sorted results of stats.Rand) are non-decreasing and some d within
+         the DKW bound d^2 2n <= ks_bound bounds every term (i+1)/n - cdf (v_i + tol_i), cdf (v_i - tol_i) - i/n of the
+         distance to the EXACT pw_cdf (ks_pw_spec);
+   op 10: the same against the harness-reported values cm_i, cp_i of the distribution's own CDF at v_i -+ tol (trusted
+         observations; ks_own_spec).  Definitions: Proofs/CheckC07.v section D *)
+Theorem C07_check_other_ops_sound :
+  (forall rest c tag pos diag,
+  check_C07 (7 :: 3 :: rest)%Z = verdict c tag pos diag -> (c = 0 \/ c = 1)%Z ->
+  exists items pairs,
+    (do kind <- pZ; do a <- pZ; do b <- pZ; do items <- plist p_disp; do pairs <- plist p_pair; pend (items, pairs)) rest
+      = Some ((items, pairs), []) /\
+    Forall disp_ok items /\ Forall (fun gm : Z * Z => fst gm = snd gm) pairs) /\
+  (forall rest0 c tag pos diag,
+  check_C07 (7 :: 9 :: rest0)%Z = verdict c tag pos diag -> (c = 0 \/ c = 1)%Z ->
+  exists h rest items,
+    p_relhdr rest0 = Some (h, rest) /\ rh_hst h = 0%Z /\
+    (do items <- plist p_det; pend items) rest = Some (items, []) /\
+    Z.land (rh_own h) 2 <> 0%Z /\ Forall det_ok items) /\
+  (forall rest c tag pos diag,
+  check_C07 (7 :: 5 :: rest)%Z = verdict c tag pos diag -> (c = 0 \/ c = 1)%Z ->
+  exists pw n st D,
+    (do pw <- plist p_knot; do bl <- pQ; do bh <- pQ; do n <- pZ; do st <- pZ; do d <- pX; pend (pw, n, st, d)) rest
+      = Some ((pw, n, st, XFin D), []) /\
+    pw_wf pw /\ (1 <= n)%Z /\ st = 0%Z /\ 0 <= D /\ D * D * inject_Z (2 * n) <= ks_bound) /\
+  (forall rest c tag pos diag,
+  check_C07 (7 :: 8 :: rest)%Z = verdict c tag pos diag -> (c = 0 \/ c = 1)%Z ->
+  exists pw st xs,
+    (do pw <- plist p_knot; do bl <- pQ; do bh <- pQ; do st <- pZ; do xs <- plist pQ; pend (pw, st, xs)) rest
+      = Some ((pw, st, xs), []) /\
+    pw_wf pw /\ (1 <= Z.of_nat (length xs))%Z /\ st = 0%Z /\
+    exists d, ks_scan pw (inject_Z (Z.of_nat (length xs))) 0 None xs 0 = Some d /\
+              0 <= d /\ d * d * inject_Z (2 * Z.of_nat (length xs)) <= ks_bound /\ ks_pw_spec pw xs d) /\
+  (forall rest0 c tag pos diag,
+  check_C07 (7 :: 10 :: rest0)%Z = verdict c tag pos diag -> (c = 0 \/ c = 1)%Z ->
+  exists h rest st items,
+    p_relhdr rest0 = Some (h, rest) /\ rh_hst h = 0%Z /\
+    (do st <- pZ; do items <- plist p_ks3; pend (st, items)) rest = Some ((st, items), []) /\
+    (1 <= Z.of_nat (length items))%Z /\ st = 0%Z /\
+    exists d, ks_scan3 (inject_Z (Z.of_nat (length items))) 0 None items 0 = Some d /\
+              0 <= d /\ d * d * inject_Z (2 * Z.of_nat (length items)) <= ks_bound /\ ks_own_spec items d).
+Proof. exact check_C07_other_ops_sound. Qed.
+Print Assumptions C07_check_other_ops_sound.
+
+(* non-vacuity: harness lines on /repo.  op 8: 24 draws on the uniform ramp [0, 2]; op 5: D of 1000 draws; op 9:
+   NormalDist{1, 2} (its own Rand), 8 pairs of draws; op 10: 16 draws of NormalDist{0, 1}; op 3: a line made by hand
+   (the harness routes dispatch through op 6 today) *)
+Example C07_check_other_ops_example :
+  check_C07 [7; 8; 2; 0; 0; 0; 4611686018427387904; 4607182418800017408; 4607182418800017408; 0; 4611686018427387904; 0; 24; 4601564507825506581; 4604031484162653830; 4604468523790367079; 4604485808836977563; 4605398893786471617; 4605476699037776577; 4605878779557810446; 4606613829921255468; 4606764475279180733; 4607172468658205124; 4607251648695398505; 4608557194853247297; 4608932253007783486; 4609085129615543095; 4609163846530824703; 4609202431067824985; 4609597583038894134; 4609845519508543729; 4610038023257937338; 4610677989580986810; 4610727050083024275; 4611163245613911165; 4611319687476698677; 4611328974771484973]%Z = verdict 0 133120 (-1) [] /\
+  check_C07 [7; 5; 2; 0; 0; 0; 4611686018427387904; 4607182418800017408; 4607182418800017408; 0; 4611686018427387904; 1000; 0; 4581940491576205648]%Z = verdict 0 133120 (-1) [] /\
+  check_C07 [7; 9; 5; 4607182418800017408; 3; 0; 13840687554816376832; 4619567317775286272; 4563868128777713116; 4607170259999472933; 0; 4607182418800017408; 8; 0; 4604291045713334626; 0; 4604291045713334626; 0; 4609590519353098510; 0; 4609590519353098510; 0; 13831975106524502724; 0; 13831975106524502724; 0; 13833953150359623908; 0; 13833953150359623908; 0; 13837755676750333656; 0; 13837755676750333656; 0; 4604106117707519313; 0; 4604106117707519313; 0; 13822724960212438504; 0; 13822724960212438504; 0; 4609606900955663714; 0; 4609606900955663714]%Z = verdict 0 3072 (-1) [] /\
+  check_C07 [7; 10; 5; 0; 3; 0; 13837309855095848960; 4613937818241073152; 4563868128777713116; 4607170259999472933; 0; 4607182418800017408; 0; 16; 13833427501210893564; 4587469862064399110; 4587469862113645374; 13833025949717896399; 4588911073875586858; 4588911073929260830; 13831394499428587360; 4593146110034785624; 4593146110068528948; 13829780151477524592; 4595665786301066736; 4595665786318370288; 13829712922043751824; 4595736677112278516; 4595736677129557776; 13829443925028546961; 4596025132009285408; 4596025132026446388; 13827886131238340178; 4597843474311396322; 4597843474327189358; 13823743794587150372; 4600066219852484623; 4600066219857473310; 13823505277735536114; 4600155231622120403; 4600155231626954825; 4577315748347727648; 4602717229891477493; 4602717229891554319; 4598476136072465280; 4603625940124175350; 4603625940126025110; 4598606782528768222; 4603651065237126993; 4603651065239023331; 4599154350144809080; 4603755813478145743; 4603755813480234048; 4604635011385301616; 4605051034232517411; 4605051034236502792; 4606936938122244674; 4605693170849154265; 4605693170853509960; 4609588518694974832; 4606619624971000478; 4606619624974398874]%Z = verdict 0 396288 (-1) [] /\
+  check_C07 [7; 3; 0; 0; 0; 1; 5; 0; 7; 7; 1; 9; 9]%Z = verdict 0 1024 (-1) [].
+Proof. vm_compute. repeat split; reflexivity. Qed.
